@@ -182,7 +182,7 @@ def case(word):
 
     def lettercase(ch):
         # letters of scripts without case (CJK, Arabic, ...) and title-case letters decide nothing: None = keep scanning
-        return 1 if ch.isupper() else 0 if ch.islower() else None
+        return 1 if (ch.isupper() or ch.istitle()) else 0 if ch.islower() else None
 
     while i < n:
         c = word[i]
